@@ -347,11 +347,6 @@ theorem auth_token_with_params_drifts :
       ≠ ⟨"basic".toList, [("realm".toList, some "x".toList)], some "xyz".toList⟩ := by
   decide +kernel
 
-/-- F16e: `type` assigned with capitals is stored verbatim and re-read lower-cased -/
-theorem auth_type_case_drifts :
-    Auth.load (Auth.write [] ⟨"Basic".toList, [], some "abc".toList⟩) ≠ ⟨"Basic".toList, [], some "abc".toList⟩ := by
-  decide +kernel
-
 /-- F16d: a ContentRange holding `stop` without `start` serialises as `bytes */*` -/
 theorem cr_invalid_state_drifts :
     CR.load (CR.write [] ⟨some "bytes".toList, none, some 10, none⟩).1 ≠ ⟨some "bytes".toList, none, some 10, none⟩ := by
@@ -362,13 +357,16 @@ theorem mp_without_mimetype_drifts :
     MP.load (MP.write [] [("charset".toList, "utf-8".toList)]).1 ≠ [("charset".toList, "utf-8".toList)] := by
   decide +kernel
 
-/-- the regressions repaired by bc9f56a / 8064f72 hold in the model: removing a Vary entry with
+/-- the regressions repaired by bc9f56a / 8064f72 / 78ff821 hold in the model: removing a Vary entry with
 another letter case deletes the header; assigning `token` reaches the setter -/
 theorem repaired_regressions :
     (next (setFamily "Vary".toList) ⟨[("Vary".toList, "Cookie".toList)],
         SetView.load [("Vary".toList, "Cookie".toList)] "Vary".toList, true⟩ (.view (.remove "cookie".toList))).h = [] ∧
     (next authFamily ⟨[], Auth.default, true⟩ (.view (.setToken (some "xyz".toList)))).h
-      = [("WWW-Authenticate".toList, "Basic xyz".toList)] := by
+      = [("WWW-Authenticate".toList, "Basic xyz".toList)] ∧
+    -- F16e (repaired by 78ff821): `w.type = "Basic"` is stored lower-cased and re-reads equal
+    (let s := next authFamily ⟨[], ⟨"bearer".toList, [], some "abc".toList⟩, true⟩ (.view (.setType "Basic".toList))
+     s.v.type = "basic".toList ∧ Auth.load s.h = s.v) := by
   decide +kernel
 
 /-! ## typed get / set of the scalar properties -/
